@@ -48,12 +48,22 @@ pub enum Step {
     DropWatch,
     /// the watch answers 410 Gone; the re-list returns these objects
     Gone(Vec<Gs>),
+    /// like `Gone`, but the re-list is paged and its second page fails once with 410 (continue token
+    /// expired), so the list starts over
+    GoneMidList(Vec<Gs>),
 }
 
 #[derive(Clone, Debug, Serialize, Deserialize)]
 pub struct Case {
     pub initial: Vec<Gs>,
     pub steps: Vec<Step>,
+    /// page size of list requests (production uses 500)
+    #[serde(default = "default_page")]
+    pub page_size: u32,
+}
+
+fn default_page() -> u32 {
+    500
 }
 
 pub struct C20;
@@ -147,7 +157,7 @@ fn decide(case: &Case, info: &mut CaseInfo) -> Verdict {
         field_selector: None,
         timeout: None,
         list_semantic: watcher_config::ListSemantic::default(),
-        page_size: Some(500),
+        page_size: Some(case.page_size.max(1)),
         initial_list_strategy: watcher_config::InitialListStrategy::default(),
     };
     let adapter = match mocks::rt().block_on(AgonesDiscoveryAdapter::new(Some(ns.clone()), cfg)) {
@@ -160,6 +170,7 @@ fn decide(case: &Case, info: &mut CaseInfo) -> Verdict {
     let mut had_relist = false;
     let mut had_unready = false;
     let mut had_unconvertible = false;
+    let mut had_aborted_list = false;
 
     // one barrier + comparison; returns a violation if any
     let mut check_after = |step_no: usize, what: &str, model: &BTreeMap<String, Gs>, fate: &BTreeMap<String, Fate>| -> Option<Verdict> {
@@ -199,12 +210,22 @@ fn decide(case: &Case, info: &mut CaseInfo) -> Verdict {
                         (Some(Fate::Deleted), _) => "deleted-server-still-offered",
                         (Some(Fate::AbsentFromRelist), _) => "server-absent-from-relist-still-offered",
                         (_, Some(o)) if o.shape != Shape::Ok => "unconvertible-update-still-offered",
+                        (_, Some(o)) if o.labels.contains_key("state") || o.annotations.contains_key("state") || o.counters.contains_key("state") || o.lists.contains_key("state") => "not-ready-server-offered-because-of-metadata-named-state",
                         (_, Some(_)) => "not-ready-server-still-offered",
                         _ => "unknown-server-offered",
                     };
                     return Some(Verdict::Fail { sig: sig.into(), msg: format!("after step {step_no} ({what}): {name} is offered as {g:?}; model says {:?} (fate {:?})", model.get(name).map(|o| (&o.state, &o.shape)), fate.get(name)) });
                 }
-                Some(w) if w != g => {
+                Some(w) if {
+                    let clash = model.get(name).is_some_and(|o| o.labels.contains_key("state") || o.annotations.contains_key("state") || o.counters.contains_key("state") || o.lists.contains_key("state"));
+                    if clash {
+                        // which value the key "state" carries is not stated when a label etc. has the same name
+                        let strip = |m: &BTreeMap<String, String>| m.iter().filter(|(k, _)| *k != "state").map(|(k, v)| (k.clone(), v.clone())).collect::<BTreeMap<_, _>>();
+                        w.0 != g.0 || strip(&w.1) != strip(&g.1)
+                    } else {
+                        w != g
+                    }
+                } => {
                     return Some(Verdict::Fail { sig: "stale-address-or-metadata".into(), msg: format!("after step {step_no} ({what}): {name} is offered as {g:?}, its current object says {w:?}") });
                 }
                 _ => {}
@@ -212,7 +233,8 @@ fn decide(case: &Case, info: &mut CaseInfo) -> Verdict {
         }
         for name in want.keys() {
             if !got.contains_key(name) {
-                return Some(Verdict::Fail { sig: "ready-server-missing".into(), msg: format!("after step {step_no} ({what}): {name} is Ready/Allocated and convertible but not offered; offered: {:?}", got.keys().collect::<Vec<_>>()) });
+                let clash = model.get(name).is_some_and(|o| o.labels.contains_key("state") || o.annotations.contains_key("state") || o.counters.contains_key("state") || o.lists.contains_key("state"));
+                return Some(Verdict::Fail { sig: if clash { "ready-server-hidden-by-metadata-named-state".into() } else { "ready-server-missing".into() }, msg: format!("after step {step_no} ({what}): {name} is Ready/Allocated and convertible but not offered; offered: {:?}", got.keys().collect::<Vec<_>>()) });
             }
         }
         None
@@ -277,8 +299,12 @@ fn decide(case: &Case, info: &mut CaseInfo) -> Verdict {
                 m.drop_watch(&ns);
                 "watch connection dropped".to_string()
             }
-            Step::Gone(relist) => {
+            Step::Gone(relist) | Step::GoneMidList(relist) => {
                 had_relist = true;
+                let mid_list = matches!(step, Step::GoneMidList(_));
+                if mid_list {
+                    had_aborted_list = true;
+                }
                 let mut newm: BTreeMap<String, Gs> = BTreeMap::new();
                 for g in relist {
                     newm.insert(gs_name(g.name), g.clone());
@@ -299,11 +325,12 @@ fn decide(case: &Case, info: &mut CaseInfo) -> Verdict {
                         n.objects.insert(name.clone(), object(&ns, name, g, rv));
                     }
                     n.gone_pending = true;
+                    n.fail_next_continue = mid_list;
                     n.close_epoch += 1;
                     n.notify.notify_waiters();
                 });
                 model = newm;
-                format!("410 Gone, re-list with {} objects", model.len())
+                format!("410 Gone, re-list with {} objects{}", model.len(), if mid_list { " (second page fails once)" } else { "" })
             }
         };
         if let Some(v) = check_after(i + 1, &what, &model, &fate) {
@@ -324,6 +351,10 @@ fn decide(case: &Case, info: &mut CaseInfo) -> Verdict {
     if had_unconvertible {
         info.class("became_unconvertible");
     }
+    if had_aborted_list && case.page_size < 20 {
+        info.class("paged_relist_aborted_and_restarted");
+    }
+    info.class(format!("page_size:{}", case.page_size));
     info.nontrivial = had_delete || had_relist || had_unready;
     Verdict::Pass
 }
@@ -341,6 +372,27 @@ fn gs() -> BoxedStrategy<Gs> {
         proptest::collection::btree_map("ann/[a-z]{1,5}", "[ -~]{0,10}", 0..2),
     )
         .prop_map(|(name, state, shape, ip, ports, counters, lists, labels, annotations)| Gs { name, state: state.to_string(), shape, ip, ports, counters, lists, labels, annotations })
+        .prop_flat_map(|g| (Just(g), proptest::option::weighted(0.08, (0u8..4, proptest::sample::select(vec!["Ready", "Shutdown", "Allocated", "blue"])))))
+        .prop_map(|(mut g, clash)| {
+            // a label / annotation / counter / list that is literally called "state"
+            if let Some((whichh, v)) = clash {
+                match whichh {
+                    0 => {
+                        g.labels.insert("state".into(), v.to_string());
+                    }
+                    1 => {
+                        g.annotations.insert("state".into(), v.to_string());
+                    }
+                    2 => {
+                        g.counters.insert("state".into(), Some(7));
+                    }
+                    _ => {
+                        g.lists.insert("state".into(), vec![v.to_string()]);
+                    }
+                }
+            }
+            g
+        })
         .boxed()
 }
 
@@ -360,8 +412,9 @@ impl Check for C20 {
             1 => Just(Step::Bookmark),
             1 => Just(Step::DropWatch),
             1 => proptest::collection::vec(gs(), 0..4).prop_map(Step::Gone),
+            1 => proptest::collection::vec(gs(), 2..6).prop_map(Step::GoneMidList),
         ];
-        (proptest::collection::vec(gs(), 0..5), proptest::collection::vec(step, 3..max_steps)).prop_map(|(initial, steps)| Case { initial, steps }).boxed()
+        (proptest::collection::vec(gs(), 0..5), proptest::collection::vec(step, 3..max_steps), prop_oneof![2 => Just(2u32), 1 => Just(3u32), 1 => Just(500u32)]).prop_map(|(initial, steps, page_size)| Case { initial, steps, page_size }).boxed()
     }
     fn max_shrink_iters(&self) -> u32 {
         40
@@ -386,6 +439,6 @@ impl Check for C20 {
         ]
     }
     fn sample(&self, case: &Case) -> Value {
-        json!({"initial": case.initial.iter().map(|g| format!("{}:{}:{:?}", gs_name(g.name), g.state, g.shape)).collect::<Vec<_>>(), "steps": case.steps.iter().map(|s| match s { Step::Apply(g) => format!("apply {}:{}:{:?}", gs_name(g.name), g.state, g.shape), Step::Delete(n) => format!("delete {}", gs_name(*n)), Step::Gone(l) => format!("gone/relist {}", l.len()), o => format!("{o:?}") }).collect::<Vec<_>>()})
+        json!({"initial": case.initial.iter().map(|g| format!("{}:{}:{:?}", gs_name(g.name), g.state, g.shape)).collect::<Vec<_>>(), "steps": case.steps.iter().map(|s| match s { Step::Apply(g) => format!("apply {}:{}:{:?}", gs_name(g.name), g.state, g.shape), Step::Delete(n) => format!("delete {}", gs_name(*n)), Step::Gone(l) => format!("gone/relist {}", l.len()), Step::GoneMidList(l) => format!("gone/relist {} with an aborted page", l.len()), o => format!("{o:?}") }).collect::<Vec<_>>()})
     }
 }
